@@ -1,7 +1,7 @@
 (* C05 dispatch: decodes a history of public calls, runs the lock-graph model, prints outcome + canonical heap per step. *)
 From Coq Require Import ZArith List String Bool Arith.
 Import ListNotations.
-From TD Require Import Lib.Sexp Model.C05_Heap Model.C05_Lock.
+From TD Require Import Lib.Sexp Model.C05_Heap Model.C05_Lock Model.C05_LazyCall.
 Open Scope string_scope.
 
 Definition dec_value (s : sexp) : option value :=
@@ -44,6 +44,29 @@ Definition dec_op (s : sexp) : option op :=
   | _ => None
   end.
 
+(* calls issued on a lazy-stack handle and routed to its members (Model/C05_LazyCall.v) *)
+Definition dec_lcall (l : sexp) (s : sexp) : option lop :=
+  match dec_nat l with
+  | None => None
+  | Some l =>
+    match s with
+    | SL [SA "set"; k] => option_map (fun k => LCall l (LSet k)) (dec_str k)
+    | SL [SA "update"; k] => option_map (fun k => LCall l (LUpdate k)) (dec_str k)
+    | SL [SA "del"; k] => option_map (fun k => LCall l (LDel k)) (dec_str k)
+    | SL [SA "rename"; k; k'; sf] =>
+        match dec_str k, dec_str k', dec_bool sf with Some k, Some k', Some sf => Some (LCall l (LRename k k' sf)) | _, _, _ => None end
+    | SL [SA "select"; ks] => option_map (fun ks => LCall l (LSelect ks)) (dec_list dec_str ks)
+    | SL [SA "exclude"; ks] => option_map (fun ks => LCall l (LExclude ks)) (dec_list dec_str ks)
+    | _ => None
+    end
+  end.
+
+Definition dec_lop (s : sexp) : option lop :=
+  match s with
+  | SL [SA "lcall"; l; c] => dec_lcall l c
+  | _ => option_map LBase (dec_op s)
+  end.
+
 Definition enc_flag (f : flag) : sexp := SA (match f with FTrue => "true" | FFalse => "false" | FNone => "none" end).
 Definition enc_ref (r : ref) : sexp := match r with RLeaf l => SL [SA "leaf"; enc_nat l] | RNode n => SL [SA "node"; enc_nat n] end.
 Definition enc_optb (o : option bool) : sexp := match o with Some b => enc_bool b | None => SA "fuel" end.
@@ -63,20 +86,20 @@ Definition enc_outcome (o : outcome) : sexp :=
 Definition enc_state (s : st) : sexp :=
   SL [enc_list (enc_node s (auto_fuel s)) (hp s); enc_nat (nxt s); enc_list enc_nat (writes s)].
 
-Fixpoint run_trace (s : st) (ops : list op) : list sexp :=
+Fixpoint run_trace (s : st) (ops : list lop) : list sexp :=
   match ops with
   | [] => []
-  | o :: r => match step (auto_fuel s) s o with
+  | o :: r => match lstep (auto_fuel s) s o with
               | None => [SA "out-of-fuel"]
               | Some (s1, out) => SL [enc_outcome out; enc_state s1] :: run_trace s1 r
               end
   end.
 
 (* the harness asks for the last two steps of a history prefix only: earlier states are never encoded *)
-Fixpoint run_keep (s : st) (ops : list op) (n : nat) (acc : list (outcome * st)) : sexp :=
+Fixpoint run_keep (s : st) (ops : list lop) (n : nat) (acc : list (outcome * st)) : sexp :=
   match ops with
   | [] => SL [enc_nat n; SL (map (fun p : outcome * st => SL [enc_outcome (fst p); enc_state (snd p)]) (rev acc))]
-  | o :: r => match step (auto_fuel s) s o with
+  | o :: r => match lstep (auto_fuel s) s o with
               | None => SL [SA "out-of-fuel"; enc_nat n]
               | Some (s1, out) => run_keep s1 r (S n) (firstn 2 ((out, s1) :: acc))
               end
@@ -84,8 +107,8 @@ Fixpoint run_keep (s : st) (ops : list op) (n : nat) (acc : list (outcome * st))
 
 Definition dispatch (cmd : string) (args : list sexp) : option sexp :=
   match cmd, args with
-  | "hist", ops => option_map (fun ops => SL (run_trace init ops)) (dec_list_aux dec_op ops)
-  | "last", ops => option_map (fun ops => run_keep init ops 0 []) (dec_list_aux dec_op ops)
+  | "hist", ops => option_map (fun ops => SL (run_trace init ops)) (dec_list_aux dec_lop ops)
+  | "last", ops => option_map (fun ops => run_keep init ops 0 []) (dec_list_aux dec_lop ops)
   | "fixed", [] => Some (SL [SA "D7"; SA "D8"; SA "D55"; SA "D56"])   (* defects whose repair the model assumes *)
   | _, _ => None
   end.
